@@ -3,8 +3,8 @@
 P=$1; ID=$2; TIER=${3:-quick}
 cd /repo || exit 2
 git diff --quiet || { echo "/repo not clean"; exit 2; }
-git apply "$P" 2>/dev/null || git apply --3way "$P" || { echo "PATCH-DOES-NOT-APPLY"; git checkout -q -- .; exit 2; }
+git apply "$P" 2>/dev/null || git apply --3way "$P" 2>/dev/null || { echo "PATCH-DOES-NOT-APPLY"; git reset -q --hard HEAD; exit 2; }
 git reset -q 2>/dev/null
 cd /verif && ./check $ID --tier $TIER; RC=$?
-git -C /repo checkout -q -- . ; git -C /repo status --short | head -3
+git -C /repo reset -q --hard HEAD ; git -C /repo status --short | head -3
 echo "seedtest rc=$RC"
